@@ -65,6 +65,7 @@ func plans(id, tier string) (Plan, bool) {
 			{Pkg: pkgV2, Harness: "c02_small", Params: fmt.Sprintf("dictoffset=65531;corpora=%d;maxlen=%d", pick(16, 16), pick(6, 8)), Shards: pick(4, 16)},
 			{Pkg: pkgV2, Harness: "c02_corpus", Params: "t=0.8", Shards: 16},
 			{Pkg: pkgV2, Harness: "c02_corpus", Params: "t=0.8;families=window;split=4", Shards: 16},
+			{Pkg: pkgV2, Harness: "c02_corpus", Params: "t=0.8;families=selfrepeat;ndocs=" + fmt.Sprint(pick(60, 431)), Shards: 16},
 			{Pkg: pkgV2, Harness: "c02_corpus", Params: "t=0.8;families=boundary;ndocs=" + fmt.Sprint(pick(100, 431)), Shards: 16},
 			{Pkg: pkgV2, Harness: "c02_corpus", Params: "t=0.9;families=boundary;ndocs=" + fmt.Sprint(pick(40, 431)), Shards: 16},
 			{Pkg: pkgV2, Harness: "c02_corpus", Params: "t=0.7;families=boundary;ndocs=" + fmt.Sprint(pick(40, 431)), Shards: 16},
@@ -77,21 +78,27 @@ func plans(id, tier string) (Plan, bool) {
 			{Pkg: pkgV2, Harness: "c03_corpus", Params: "t=0.8", Shards: pick(10, 16)},
 			{Pkg: pkgV2, Harness: "c03_corpus", Params: "t=0.8;families=window;split=4", Shards: 16},
 			{Pkg: pkgV2, Harness: "c03_corpus", Params: "t=0.5;families=" + map[bool]string{false: "exact", true: "exact,edit1,truncate,scenario;ndocs=16"}[th], Shards: pick(6, 16)},
+			{Pkg: pkgV2, Harness: "c03_corpus", Params: "t=0.8;families=selfrepeat;ndocs=" + fmt.Sprint(pick(120, 431)), Shards: 16},
 			{Pkg: pkgV2, Harness: "c03_bytes", Shards: pick(2, 8)},
 			{Pkg: pkgV2, Harness: "c03_names", Shards: 1},
 		}}, true
 	case "C04":
-		return Plan{Level: "model_checking", Jobs: []Job{
+		var deep []Job
+		if th {
+			// two deviating range executions per Match on a smaller pool
+			deep = []Job{{Pkg: pkgV2, Harness: "c04_maporder_corpus", Instr: "v2map", Params: "docs=24;deviations=2", Shards: 16}}
+		}
+		return Plan{Level: "model_checking", Jobs: append(deep, []Job{
 			{Pkg: pkgV2, Harness: "c04_maporder_small", Instr: "v2map", Params: map[bool]string{false: "maxlen=5;deviations=1", true: "maxlen=7;deviations=1"}[th], Shards: pick(8, 16)},
 			{Pkg: pkgV2, Harness: "c04_maporder_small", Instr: "v2map", Params: map[bool]string{false: "maxlen=3;deviations=2", true: "maxlen=5;deviations=2"}[th], Shards: pick(4, 16)},
-			{Pkg: pkgV2, Harness: "c04_maporder_corpus", Instr: "v2map", Shards: pick(8, 16)},
+			{Pkg: pkgV2, Harness: "c04_maporder_corpus", Instr: "v2map", Params: map[bool]string{false: "docs=32;deviations=1", true: "docs=431;deviations=1"}[th], Shards: pick(8, 16)},
 			{Pkg: pkgV2, Harness: "c04_history", Shards: pick(4, 12)},
 			{Pkg: pkgV2, Harness: "c04_history", Params: "trace=wildcard", Shards: pick(4, 12)},
 			{Pkg: pkgV2, Harness: "c04_config", Shards: pick(4, 8)},
 			{Pkg: pkgV2, Harness: "c04_dictwords", Shards: 8},
 			{Pkg: pkgV2, Harness: "c04_trace", Shards: pick(4, 8)},
 			{Pkg: pkgV2, Harness: "c04_processes", Shards: 1, MaxProcs: 4},
-		}}, true
+		}...)}, true
 	case "C05":
 		jobs := []Job{
 			{Pkg: pkgV2, Harness: "c05_tokens", Shards: 16},
@@ -140,6 +147,7 @@ func plans(id, tier string) (Plan, bool) {
 			{Pkg: pkgV2, Harness: "c08_chunks", Params: map[bool]string{false: "inputs=1;deviations=3", true: "inputs=3;deviations=3"}[th], Shards: pick(4, 16)},
 			{Pkg: pkgV2, Harness: "c08_pads", Shards: pick(6, 16)},
 			{Pkg: pkgV2, Harness: "c08_faults", Shards: pick(6, 16)},
+			{Pkg: pkgV2, Harness: "c08_stutter", Shards: pick(4, 16)},
 			// the same with every trace phase switched on (diagnostic code runs on the same paths)
 			{Pkg: pkgV2, Harness: "c08_faults", Params: "trace=all", Shards: pick(6, 16)},
 			{Pkg: pkgV2, Harness: "c08_chunks", Params: map[bool]string{false: "inputs=2;deviations=1;trace=all", true: "inputs=6;deviations=2;trace=all"}[th], Shards: pick(4, 16)},
@@ -166,6 +174,9 @@ func plans(id, tier string) (Plan, bool) {
 			jobs = append(jobs, Job{Pkg: pkgV2, Harness: "c09_sched", Instr: "v2access", Params: fmt.Sprintf("scenario=1;threads=2;policy=delay;budget=1;maxsite=100000;monitor=access;trace=%s", tr), Shards: 2})
 			jobs = append(jobs, Job{Pkg: pkgV2, Harness: "c09_sched", Instr: "v2coarse", Params: fmt.Sprintf("scenario=0;threads=2;policy=delay;budget=%d;trace=%s", pick(1, 2), tr), Shards: 2})
 		}
+		// two long inputs of equal length with a common 5 KB head and different documents behind it
+		jobs = append(jobs, Job{Pkg: pkgV2, Harness: "c09_sched", Instr: "v2coarse", Params: fmt.Sprintf("scenario=11;threads=2;api=match;policy=delay;budget=%d", pick(1, 2)), Shards: pick(4, 8)})
+		jobs = append(jobs, Job{Pkg: pkgV2, Harness: "c09_sched", Instr: "v2coarse", Params: "scenario=11;threads=2;policy=delay;budget=1", Shards: pick(2, 8)})
 		jobs = append(jobs, Job{Pkg: pkgV2, Harness: "c09_access_corpus", Instr: "v2access", Shards: 16})
 		if th {
 			for sc := 0; sc < 4; sc++ {
@@ -242,7 +253,7 @@ func plans(id, tier string) (Plan, bool) {
 		jobs = append(jobs, Job{Pkg: pkgSC, Harness: "c14_race", Params: "values=70", Race: true, MaxProcs: 16})
 		jobs = append(jobs, Job{Pkg: pkgSC, Harness: "c14_sched", Instr: "v1", Params: "scenario=12;values=70;policy=delay;budget=0"})
 		// more than a megabyte of registered text (2 values of 540 KB), small queries
-		jobs = append(jobs, Job{Pkg: pkgSC, Harness: "c14_sched", Instr: "v1", Params: fmt.Sprintf("scenario=0;values=2;valuebytes=540000;policy=delay;budget=%d", pick(1, 2)), Shards: pick(8, 16)})
+		jobs = append(jobs, Job{Pkg: pkgSC, Harness: "c14_sched", Instr: "v1", Params: fmt.Sprintf("scenario=0;values=2;valuebytes=540000;policy=delay;budget=%d", pick(1, 1)), Shards: pick(8, 16)})
 		jobs = append(jobs, Job{Pkg: pkgExtV1, Harness: "c14_license_sched", Instr: "v1", Shards: pick(4, 16)})
 		jobs = append(jobs, Job{Pkg: pkgExtV1, Harness: "c14_license_sched", Instr: "v1", Params: "scenario=1;budget=" + fmt.Sprint(pick(1, 2)), Shards: pick(4, 16)})
 		jobs = append(jobs, Job{Pkg: pkgExtV1, Harness: "c14_license_race", Race: true, MaxProcs: 16})
@@ -263,6 +274,7 @@ func plans(id, tier string) (Plan, bool) {
 		return Plan{Level: "exploration", Jobs: []Job{
 			{Pkg: pkgTok, Harness: "c17_tokens", Shards: pick(4, 16)},
 			{Pkg: pkgTok, Harness: "c17_tokens", Params: "alphabet=classes", Shards: pick(4, 16)},
+			{Pkg: pkgTok, Harness: "c17_longwords", Shards: pick(4, 12)},
 			{Pkg: pkgSS, Harness: "c17_candidates", Shards: 16},
 			{Pkg: pkgSS, Harness: "c17_candidates", Params: "alphabet=ab", Shards: 16},
 			{Pkg: pkgSS, Harness: "c17_large", Shards: 16},
@@ -273,6 +285,7 @@ func plans(id, tier string) (Plan, bool) {
 			{Pkg: pkgCP, Harness: "c18_lexer", Params: fmt.Sprintf("text=unicode;maxlen=%d", pick(4, 5)), Shards: 16, MaxProcs: 2},
 			{Pkg: pkgCP, Harness: "c18_chunks", Shards: pick(2, 8), MaxProcs: 2},
 			{Pkg: pkgCP, Harness: "c18_long", Shards: 8, MaxProcs: 2},
+			{Pkg: pkgCP, Harness: "c18_lines", Shards: 9, MaxProcs: 2},
 		}}, true
 	case "C19":
 		var jobs []Job
@@ -312,6 +325,7 @@ func plans(id, tier string) (Plan, bool) {
 			{Pkg: pkgSets, Harness: "c20_stringset", Params: "observe=end", Shards: pick(4, 8)},
 			{Pkg: pkgIntSets, Harness: "c20_intset", Params: "observe=path", Shards: pick(4, 8)},
 			{Pkg: pkgIntSets, Harness: "c20_intset", Params: "observe=end", Shards: pick(4, 8)},
+			{Pkg: pkgIntSets, Harness: "c20_intset", Params: "observe=path;universe=wide", Shards: pick(4, 8)},
 			{Pkg: pkgPQ, Harness: "c20_queue", Params: "order=min;setindex=yes"},
 			{Pkg: pkgPQ, Harness: "c20_queue", Params: "order=max;setindex=yes"},
 			{Pkg: pkgPQ, Harness: "c20_queue", Params: "order=max;setindex=no"},
